@@ -26,8 +26,7 @@ Definition lk_snoopy_tsrm_dtor : lkfn := {| lk_name := "snoopy_tsrm_dtor"; lk_np
 Definition lk_snoopy_tsrm_init : lkfn := {| lk_name := "snoopy_tsrm_init"; lk_nparams := 0; lk_body :=
   [(KGlobal "snoopy_tsrm_threadRepo_mutexAttr" "&" true);
    (KExt "pthread_mutexattr_init");
-   (KGlobal "snoopy_tsrm_threadRepo_mutexAttr" "&" true);
-   (KExt "pthread_mutexattr_settype");
+   (KMutexType "snoopy_tsrm_threadRepo_mutexAttr" "PTHREAD_MUTEX_RECURSIVE");
    (KMutexInit "snoopy_tsrm_threadRepo_mutex");
    (KAtfork "snoopy_tsrm_atfork_prepare" "snoopy_tsrm_atfork_parent" "snoopy_tsrm_atfork_child")] |}.
 
@@ -50,8 +49,7 @@ Definition lk_snoopy_tsrm_atfork_child : lkfn := {| lk_name := "snoopy_tsrm_atfo
 
 Definition lk_snoopy_tsrm_doesThreadRepoEntryExist : lkfn := {| lk_name := "snoopy_tsrm_doesThreadRepoEntryExist"; lk_nparams := 2; lk_body :=
   [(KIf (CParamNe 1 (1)%Z) [(KLock "snoopy_tsrm_threadRepo_mutex")] []);
-   (KLoop [(KListOp "fetchNextNode" "snoopy_tsrm_threadRepo")] [(KIf COther [KContinue] []); (KExt "pthread_equal"); (KIf COther [(KGoto "FOUND")] [])]);
-   (KLabel "FOUND");
+   (KLoop [(KListOp "fetchNextNode" "snoopy_tsrm_threadRepo")] [(KIf COther [KContinue] []); (KExt "pthread_equal"); (KIf COther [KBreak] [])]);
    (KIf (CParamNe 1 (1)%Z) [(KUnlock "snoopy_tsrm_threadRepo_mutex")] []);
    KReturn] |}.
 
@@ -70,8 +68,7 @@ Definition lk_snoopy_tsrm_getCurrentThreadId : lkfn := {| lk_name := "snoopy_tsr
 Definition lk_snoopy_tsrm_getCurrentThreadRepoEntry : lkfn := {| lk_name := "snoopy_tsrm_getCurrentThreadRepoEntry"; lk_nparams := 0; lk_body :=
   [(KCall "snoopy_tsrm_getCurrentThreadId" []);
    (KLock "snoopy_tsrm_threadRepo_mutex");
-   (KLoop [(KListOp "fetchNextNode" "snoopy_tsrm_threadRepo")] [(KIf COther [KContinue] []); (KExt "pthread_equal"); (KIf COther [(KGoto "FOUND")] [])]);
-   (KLabel "FOUND");
+   (KLoop [(KListOp "fetchNextNode" "snoopy_tsrm_threadRepo")] [(KIf COther [KContinue] []); (KExt "pthread_equal"); (KIf COther [KBreak] [])]);
    (KUnlock "snoopy_tsrm_threadRepo_mutex");
    KReturn] |}.
 
@@ -94,6 +91,12 @@ Definition lk_snoopy_tsrm_get_threadCount : lkfn := {| lk_name := "snoopy_tsrm_g
    (KUnlock "snoopy_tsrm_threadRepo_mutex");
    KReturn] |}.
 
-Definition tsrm_fns : list lkfn := [lk_snoopy_tsrm_ctor; lk_snoopy_tsrm_dtor; lk_snoopy_tsrm_init; lk_snoopy_tsrm_onLoad; lk_snoopy_tsrm_atfork_prepare; lk_snoopy_tsrm_atfork_parent; lk_snoopy_tsrm_atfork_child; lk_snoopy_tsrm_doesThreadRepoEntryExist; lk_snoopy_tsrm_createNewThreadData; lk_snoopy_tsrm_getCurrentThreadId; lk_snoopy_tsrm_getCurrentThreadRepoEntry; lk_snoopy_tsrm_getCurrentThreadData; lk_snoopy_tsrm_get_configuration; lk_snoopy_tsrm_get_inputdatastorage; lk_snoopy_tsrm_get_threadCount].
+Definition lk_snoopy_tsrm_localtime_r : lkfn := {| lk_name := "snoopy_tsrm_localtime_r"; lk_nparams := 2; lk_body :=
+  [(KLock "snoopy_tsrm_threadRepo_mutex");
+   (KExt "localtime_r");
+   (KUnlock "snoopy_tsrm_threadRepo_mutex");
+   KReturn] |}.
+
+Definition tsrm_fns : list lkfn := [lk_snoopy_tsrm_ctor; lk_snoopy_tsrm_dtor; lk_snoopy_tsrm_init; lk_snoopy_tsrm_onLoad; lk_snoopy_tsrm_atfork_prepare; lk_snoopy_tsrm_atfork_parent; lk_snoopy_tsrm_atfork_child; lk_snoopy_tsrm_doesThreadRepoEntryExist; lk_snoopy_tsrm_createNewThreadData; lk_snoopy_tsrm_getCurrentThreadId; lk_snoopy_tsrm_getCurrentThreadRepoEntry; lk_snoopy_tsrm_getCurrentThreadData; lk_snoopy_tsrm_get_configuration; lk_snoopy_tsrm_get_inputdatastorage; lk_snoopy_tsrm_get_threadCount; lk_snoopy_tsrm_localtime_r].
 (* functions of src/tsrm.c that carry __attribute__((constructor)) *)
 Definition constructors : list string := ["snoopy_tsrm_onLoad"].
